@@ -17,7 +17,6 @@ package pubsub
 import (
 	"context"
 	"fmt"
-	"log"
 	"net"
 	"slices"
 	"sync"
@@ -29,173 +28,139 @@ import (
 type PubSub struct {
 	channels      []*Channel
 	channelsRWMut sync.RWMutex
+	outboxes      map[*net.Conn]*outbox // One ordered delivery queue per subscribed connection.
 }
 
 func NewPubSub() *PubSub {
 	return &PubSub{
 		channels:      []*Channel{},
 		channelsRWMut: sync.RWMutex{},
+		outboxes:      make(map[*net.Conn]*outbox),
 	}
+}
+
+// subscriptionCount returns the number of channels and patterns the connection is subscribed to.
+func (ps *PubSub) subscriptionCount(conn *net.Conn) int {
+	count := 0
+	for _, channel := range ps.channels {
+		if channel.HasSubscriber(conn) {
+			count += 1
+		}
+	}
+	return count
 }
 
 func (ps *PubSub) Subscribe(_ context.Context, conn *net.Conn, channels []string, withPattern bool) {
 	ps.channelsRWMut.Lock()
 	defer ps.channelsRWMut.Unlock()
 
-	r := resp.NewConn(*conn)
-
 	action := "subscribe"
 	if withPattern {
 		action = "psubscribe"
 	}
 
+	ob, ok := ps.outboxes[conn]
+	if !ok {
+		ob = newOutbox(conn)
+		ps.outboxes[conn] = ob
+	}
+
 	for i := 0; i < len(channels); i++ {
-		// Check if channel with given name exists
+		// Check if a channel of the same kind (plain channel or pattern) with the given name exists.
 		// If it does, subscribe the connection to the channel
 		// If it does not, create the channel and subscribe to it
 		channelIdx := slices.IndexFunc(ps.channels, func(channel *Channel) bool {
-			return channel.name == channels[i]
+			return channel.name == channels[i] && (channel.pattern != nil) == withPattern
 		})
 
 		if channelIdx == -1 {
-			// Create new channel, start it, and subscribe to it
 			var newChan *Channel
 			if withPattern {
 				newChan = NewChannel(WithPattern(channels[i]))
 			} else {
 				newChan = NewChannel(WithName(channels[i]))
 			}
-			newChan.Start()
-			if newChan.Subscribe(conn) {
-				if err := r.WriteArray([]resp.Value{
-					resp.StringValue(action),
-					resp.StringValue(newChan.name),
-					resp.IntegerValue(i + 1),
-				}); err != nil {
-					log.Println(err)
-				}
-				ps.channels = append(ps.channels, newChan)
-			}
-		} else {
-			// Subscribe to existing channel
-			if ps.channels[channelIdx].Subscribe(conn) {
-				if err := r.WriteArray([]resp.Value{
-					resp.StringValue(action),
-					resp.StringValue(ps.channels[channelIdx].name),
-					resp.IntegerValue(i + 1),
-				}); err != nil {
-					log.Println(err)
-				}
-			}
+			ps.channels = append(ps.channels, newChan)
+			channelIdx = len(ps.channels) - 1
+		}
+
+		if ps.channels[channelIdx].Subscribe(conn) {
+			// Confirm with the number of channels and patterns the connection is now subscribed to.
+			ob.push([]resp.Value{
+				resp.StringValue(action),
+				resp.StringValue(ps.channels[channelIdx].name),
+				resp.IntegerValue(ps.subscriptionCount(conn)),
+			})
 		}
 	}
 }
 
 func (ps *PubSub) Unsubscribe(_ context.Context, conn *net.Conn, channels []string, withPattern bool) []byte {
-	ps.channelsRWMut.RLock()
-	defer ps.channelsRWMut.RUnlock()
+	ps.channelsRWMut.Lock()
+	defer ps.channelsRWMut.Unlock()
 
 	action := "unsubscribe"
 	if withPattern {
 		action = "punsubscribe"
 	}
 
-	unsubscribed := make(map[int]string)
-	idx := 1
-
-	if len(channels) <= 0 {
-		if !withPattern {
-			// If the channels slice is empty, and no pattern is provided
-			// unsubscribe from all channels.
-			for _, channel := range ps.channels {
-				if channel.pattern != nil { // Skip pattern channels
-					continue
-				}
-				if channel.Unsubscribe(conn) {
-					unsubscribed[idx] = channel.name
-					idx += 1
-				}
-			}
-		} else {
-			// If the channels slice is empty, and pattern is provided
-			// unsubscribe from all patterns.
-			for _, channel := range ps.channels {
-				if channel.pattern == nil { // Skip non-pattern channels
-					continue
-				}
-				if channel.Unsubscribe(conn) {
-					unsubscribed[idx] = channel.name
-					idx += 1
-				}
-			}
+	// UNSUBSCRIBE only concerns plain channels and PUNSUBSCRIBE only patterns, both by exact name.
+	// If no name is provided, unsubscribe from all channels (or from all patterns).
+	var unsubscribed []string
+	for _, channel := range ps.channels {
+		if (channel.pattern != nil) != withPattern {
+			continue
 		}
-	}
-
-	// Unsubscribe from channels where the name exactly matches channel name.
-	// If unsubscribing from a pattern, also unsubscribe from all channel whose
-	// names exactly matches the pattern name.
-	for _, channel := range ps.channels { // For each channel in PubSub
-		for _, c := range channels { // For each channel name provided
-			if channel.name == c && channel.Unsubscribe(conn) {
-				unsubscribed[idx] = channel.name
-				idx += 1
-			}
-		}
-	}
-
-	// If withPattern is true, unsubscribe from channels where pattern matches pattern provided,
-	// also unsubscribe from channels where the name matches the given pattern.
-	if withPattern {
-		for _, pattern := range channels {
-			g := glob.MustCompile(pattern)
-			for _, channel := range ps.channels {
-				// If it's a pattern channel, directly compare the patterns
-				if channel.pattern != nil && channel.name == pattern {
-					if channel.Unsubscribe(conn) {
-						unsubscribed[idx] = channel.name
-						idx += 1
-					}
-					continue
-				}
-				// If this is a regular channel, check if the channel name matches the pattern given
-				if g.Match(channel.name) {
-					if channel.Unsubscribe(conn) {
-						unsubscribed[idx] = channel.name
-						idx += 1
-					}
-				}
-			}
+		if (len(channels) == 0 || slices.Contains(channels, channel.name)) && channel.Unsubscribe(conn) {
+			unsubscribed = append(unsubscribed, channel.name)
 		}
 	}
 
 	res := fmt.Sprintf("*%d\r\n", len(unsubscribed))
-	for key, value := range unsubscribed {
-		res += fmt.Sprintf("*3\r\n+%s\r\n$%d\r\n%s\r\n:%d\r\n", action, len(value), value, key)
+	for i, name := range unsubscribed {
+		res += fmt.Sprintf("*3\r\n+%s\r\n$%d\r\n%s\r\n:%d\r\n", action, len(name), name, i+1)
 	}
 
 	return []byte(res)
 }
 
+// Publish queues the message once for every connection that is subscribed, at this moment, to the
+// channel or to a pattern matching it. A connection subscribed through the channel itself is told the
+// channel name, otherwise the first matching pattern it is subscribed to.
 func (ps *PubSub) Publish(_ context.Context, message string, channelName string) {
 	ps.channelsRWMut.RLock()
 	defer ps.channelsRWMut.RUnlock()
 
-	for _, channel := range ps.channels {
-		// If it's a regular channel, check if the channel name matches the name given
-		if channel.pattern == nil {
-			if channel.name == channelName {
-				channel.Publish(message)
+	queued := make(map[*net.Conn]struct{})
+	for _, patterns := range []bool{false, true} {
+		for _, channel := range ps.channels {
+			if (channel.pattern != nil) != patterns {
+				continue
 			}
-			continue
-		}
-		// If it's a glob pattern channel, check if the name matches the pattern
-		if channel.pattern.Match(channelName) {
-			channel.Publish(message)
+			if patterns && !channel.pattern.Match(channelName) {
+				continue
+			}
+			if !patterns && channel.name != channelName {
+				continue
+			}
+			for conn := range channel.Subscribers() {
+				if _, ok := queued[conn]; ok {
+					continue
+				}
+				queued[conn] = struct{}{}
+				if ob, ok := ps.outboxes[conn]; ok {
+					ob.push([]resp.Value{
+						resp.StringValue("message"),
+						resp.StringValue(channel.name),
+						resp.StringValue(message),
+					})
+				}
+			}
 		}
 	}
 }
 
-func (ps *PubSub) Channels(pattern string) []byte {
+func (ps *PubSub) Channels(pattern string) ([]byte, error) {
 	ps.channelsRWMut.RLock()
 	defer ps.channelsRWMut.RUnlock()
 
@@ -210,10 +175,13 @@ func (ps *PubSub) Channels(pattern string) []byte {
 			}
 		}
 		res = fmt.Sprintf("*%d\r\n%s", count, res)
-		return []byte(res)
+		return []byte(res), nil
 	}
 
-	g := glob.MustCompile(pattern)
+	g, err := glob.Compile(pattern)
+	if err != nil {
+		return nil, fmt.Errorf("invalid pattern %s", pattern)
+	}
 
 	for _, channel := range ps.channels {
 		// If channel is a pattern channel, then directly compare the channel name to pattern
@@ -229,7 +197,7 @@ func (ps *PubSub) Channels(pattern string) []byte {
 		}
 	}
 
-	return []byte(fmt.Sprintf("*%d\r\n%s", count, res))
+	return []byte(fmt.Sprintf("*%d\r\n%s", count, res)), nil
 }
 
 func (ps *PubSub) NumPat() int {
@@ -251,15 +219,14 @@ func (ps *PubSub) NumSub(channels []string) []byte {
 
 	res := fmt.Sprintf("*%d\r\n", len(channels))
 	for _, channel := range channels {
-		// If it's a pattern channel, skip it
-		chanIdx := slices.IndexFunc(ps.channels, func(c *Channel) bool {
-			return c.name == channel
-		})
-		if chanIdx == -1 {
-			res += fmt.Sprintf("*2\r\n$%d\r\n%s\r\n:0\r\n", len(channel), channel)
-			continue
+		// Count the subscribers of the channel and of the pattern with this name.
+		n := 0
+		for _, c := range ps.channels {
+			if c.name == channel {
+				n += c.NumSubs()
+			}
 		}
-		res += fmt.Sprintf("*2\r\n$%d\r\n%s\r\n:%d\r\n", len(channel), channel, ps.channels[chanIdx].NumSubs())
+		res += fmt.Sprintf("*2\r\n$%d\r\n%s\r\n:%d\r\n", len(channel), channel, n)
 	}
 	return []byte(res)
 }
